@@ -41,6 +41,7 @@ def check_config(ctx, spec, N):
         return
     x = ca.SX.sym("x", spec.na)
     ev = lib_call(ctx, "exp", name, lambda: Ev("exp", [x], [G.algebra.elem(x).exp(G).param]))
+    ev_m = lib_call(ctx, "exp_to_matrix", name, lambda: Ev("expm_", [x], [G.algebra.elem(x).exp(G).to_Matrix()], probe=False))
     if ev is None:
         return
     X = np.concatenate([algebra_corpus(spec), spec.alg_rand(rng, N)])
@@ -59,6 +60,9 @@ def check_config(ctx, spec, N):
     M = spec.mat(P[:, :, 0])
     err = np.abs(M - ref).max(axis=(1, 2))
     ctx.check_array("exp_is_expm", name, err, 1e-9 * sc, {"x": X})
+    if ev_m is not None:  # the statement is about the library's own matrix form of exp(x)
+        (Ml,), _ = ev_m(X)
+        ctx.check_array("matrix_form_of_exp_is_expm", name, np.abs(Ml - ref).max(axis=(1, 2)), 1e-9 * sc, {"x": X})
     if any(so3_of(p) is not None for p in parts_of(spec)) or name == "SE2":
         ctx.require("cell:exp:" + name, "(no branch cell of exp observed)")
 
